@@ -498,11 +498,13 @@ func Parse(bStr string) (Baggage, error) {
 	}
 
 	b := make(baggage.List)
+	var repaired bool
 	for _, memberStr := range strings.Split(bStr, listDelimiter) {
 		m, err := parseMember(memberStr)
 		if err != nil {
 			return Baggage{}, err
 		}
+		repaired = repaired || m.hasReplacementChar()
 		// OpenTelemetry resolves duplicates by last-one-wins.
 		b[m.key] = baggage.Item{
 			Value:      m.value,
@@ -517,7 +519,38 @@ func Parse(bStr string) (Baggage, error) {
 		return Baggage{}, errMemberNumber
 	}
 
-	return Baggage{b}, nil
+	bag := Baggage{b}
+	if repaired {
+		// Invalid UTF-8 sequences have been replaced with U+FFFD, which takes
+		// more bytes when it is percent-encoded again than the sequence it
+		// replaced. Ensure the baggage still respects the size limits, so that
+		// its serialization can be parsed again.
+		s := bag.String()
+		if n := len(s); n > maxBytesPerBaggageString {
+			return Baggage{}, fmt.Errorf("%w: %d", errBaggageBytes, n)
+		}
+		for _, memberStr := range strings.Split(s, listDelimiter) {
+			if n := len(memberStr); n > maxBytesPerMembers {
+				return Baggage{}, fmt.Errorf("%w: %d", errMemberBytes, n)
+			}
+		}
+	}
+
+	return bag, nil
+}
+
+// hasReplacementChar reports whether the value of m, or of one of its
+// properties, contains the Unicode replacement character U+FFFD.
+func (m Member) hasReplacementChar() bool {
+	if strings.ContainsRune(m.value, utf8.RuneError) {
+		return true
+	}
+	for _, p := range m.properties {
+		if strings.ContainsRune(p.value, utf8.RuneError) {
+			return true
+		}
+	}
+	return false
 }
 
 // Member returns the baggage list-member identified by key.
